@@ -156,6 +156,7 @@ Definition opt_uv (data : bytes) (p : N) : option (N * N) :=
 
 Definition dec_raft (data : bytes) : dres (option raft_ptr) :=
   let len := blen data in
+  if negb (5 <? len) then DVal None else
   let '(g, p) := uv_at data 5 in
   let '(seg, p) := uv_at data p in
   let '(off, p) := uv_at data p in
@@ -190,6 +191,7 @@ Definition empty_region (id : N) : region_meta :=
 
 Definition dec_region (data : bytes) : dres (option region_edit) :=
   let len := blen data in
+  if negb (5 <? len) then DVal None else
   let '(id, p) := uv_at data 5 in
   if len <? p then DErr else
   match opt_flag data p with
